@@ -14,9 +14,12 @@ CodesOfDef == [a \in {"sp", "md", "tp"} |->
 LifeSDef == (1 :> 7) @@ (2 :> 20) @@ (3 :> 9)
 LifeADef == (1 :> 3) @@ (2 :> 0)  @@ (3 :> 3)
 
-NRx == Cardinality({i \in 1..Len(h) : h[i][1] = "rx"})
+(* stamps: strictly increasing / also the same millisecond and a clock that was put back *)
+StepsAnyDef == {-1, 0, 1}
+
+NRx == nrx
 Bound == Len(h) <= MaxEvents /\ NRx <= MaxMsgs
-View == <<now, slot, last, pend, seenExp, obs, Len(h), NRx>>
+View == <<now, skew, slot, last, pend, seenExp, obs, Len(h), NRx>>
 Sym == Permutations(Ctx) \cup Permutations(Val)
 (* single-form shape (DHW / system / device attributes: no arrays, one code per attribute) *)
 CodesOf1Def == [a \in {"a1", "a2", "a3"} |-> IF a = "a1" THEN {1} ELSE IF a = "a2" THEN {2} ELSE {3}]
@@ -28,19 +31,23 @@ LifeA1Def == (1 :> 0) @@ (2 :> 0)  @@ (3 :> 0)
 SimNext ==
   /\ Len(h) < MaxEvents
   /\ IF pend # {} THEN Drain ELSE
-     \E r \in {RandomElement(1..12)} :
-     LET ticks  == {<<m, j>> \in {x \in AllStored : CanExpire(x)} \X (1..4) : ThresholdAt(m, j) > now}
+     \E r \in {RandomElement(1..12)}, rd \in {RandomElement(1..10)} :
+     LET \* the stamp of a packet: mostly later than the clock before it; the same millisecond (a second frame of
+         \* one serial read) or an earlier one (the clock was put back) where the instance allows it
+         d0     == IF rd \in 1..6 THEN 1 ELSE IF rd \in 7..8 THEN 0 ELSE -1
+         d      == IF d0 \in StampSteps /\ now + d0 >= 0 THEN d0 ELSE 1
+         ticks  == {<<m, j>> \in {x \in AllStored : CanExpire(x)} \X (1..4) : ThresholdAt(m, j) > now}
          canArr == \E k \in Code : LifeA[k] # 0
          kind   == IF r \in 6..8 /\ ticks # {} THEN "tick"
                    ELSE IF r \in 3..4 /\ canArr THEN "arr"
                    ELSE IF r = 5 THEN "other"
                    ELSE IF r \in 9..12 THEN "read" ELSE "single" IN
      \/ kind = "single" /\ \E k \in Code, c \in Ctx, v \in Val :
-            LifeS[k] # 0 /\ ReceiveAt(k, "S", [x \in {c} |-> v], LifeS[k], now + 1)
+            LifeS[k] # 0 /\ ReceiveAt(k, "S", [x \in {c} |-> v], LifeS[k], now + d)
      \/ kind = "arr" /\ \E k \in Code, S \in Subsets1(Ctx) : \E vals \in [S -> Val] :
-            LifeA[k] # 0 /\ ReceiveAt(k, "A", vals, LifeA[k], now + 1)
-     \/ kind = "other" /\ OtherAt(now + 1)
-     \/ kind = "tick" /\ \E p \in ticks : TickTo(ThresholdAt(p[1], p[2]), <<p[1].t, p[2]>>)
+            LifeA[k] # 0 /\ ReceiveAt(k, "A", vals, LifeA[k], now + d)
+     \/ kind = "other" /\ OtherAt(now + d)
+     \/ kind = "tick" /\ \E p \in ticks : TickTo(ThresholdAt(p[1], p[2]), <<p[1].n, p[2]>>)
      \/ kind = "read" /\ \E c \in Ctx, a \in Attr : Read(c, CodesOf[a])
 SimSpec == Init /\ [][SimNext]_vars
 
